@@ -545,7 +545,9 @@ def gen_case(rng: common.Rng, scope: bool = True, top: str | None = None) -> dic
             elif r < 0.20:
                 req["how"] = "all-out"
                 req["out"] = list(outs)
-            req["call"] = rng.pick(["point", "point", "point", "inplace", "inplace", "defaults", "exec-first"])
+            req["call"] = rng.pick(["point", "point", "point", "inplace", "inplace", "defaults", "exec-first", "adapter"])
+            if req["call"] == "adapter" and (req["all"] or any(l["spec"]["kind"] == "operator" for l in leaves(proc))):
+                req["call"] = "point"  # DisciplineAdapter concatenates arrays: no operators, explicit names
             case["reqs"].append(req)
         if exact_ok(case):
             return case
@@ -741,9 +743,26 @@ def impl_run(case) -> dict[str, Any]:
             elif call == "exec-first":
                 obj.execute(point)
                 jac = obj.linearize(point, compute_all_jacobians=bool(req["all"]), execute=False)
+            elif call == "adapter":
+                # the route of the MDO formulations: a function of the vector of the requested inputs
+                from gemseo.core.mdo_functions.discipline_adapter_generator import DisciplineAdapterGenerator
+
+                func = DisciplineAdapterGenerator(obj).get_function(list(xs), list(os_), default_input_data=point)
+                mat = np.atleast_2d(np.asarray(func.jac(np.concatenate([point[n] for n in xs])), dtype=float))
+                jac = {}
+                r0 = 0
+                for o in os_:
+                    c0 = 0
+                    jac[o] = {}
+                    for x in xs:
+                        jac[o][x] = mat[r0 : r0 + case["sizes"][o], c0 : c0 + case["sizes"][x]].copy()
+                        c0 += case["sizes"][x]
+                    r0 += case["sizes"][o]
+                if mat.shape != (r0, c0):
+                    raise AssertionError(f"adapter Jacobian of shape {mat.shape}, expected {(r0, c0)}")
             else:
                 jac = obj.linearize(point, compute_all_jacobians=bool(req["all"]))
-            if jac is not obj.jac:
+            if call != "adapter" and jac is not obj.jac:
                 raise AssertionError("linearize did not return the jac attribute")
           if True:
             blocks = {}
@@ -875,6 +894,8 @@ def _valid(case, scope=True) -> bool:
             if not set(r["in"]) <= set(ins) or not set(r["out"]) <= set(outs):
                 return False
             if set(r["point"]) != set(ins):
+                return False
+            if r.get("call") == "adapter" and (r["all"] or any(l["spec"]["kind"] == "operator" for l in leaves(proc))):
                 return False
             if r.get("how") == "all-in" and set(r["in"]) != set(ins):
                 return False
